@@ -3,7 +3,9 @@
 // (search.go) looks for a linearisation against a Go port of the contract, and
 // run/Run_C02.v verifies that witness with Lin.valid_lin against spec/KV.v.  No
 // witness => the history is reported.  Targeted races (N creators of one absent
-// key, N CasByVersion calls on one version) are additionally checked directly.
+// key, N CasByVersion calls on one version, racing PutMany with overlapping keys)
+// run in many short rounds and are additionally checked directly, as is the
+// freshness of every version a successful write returns.
 package main
 
 import (
@@ -13,6 +15,7 @@ import (
 	"sort"
 	"sync"
 	"sync/atomic"
+	"time"
 
 	"verifharness/internal/hx"
 	"verifharness/internal/kvx"
@@ -21,24 +24,28 @@ import (
 	"github.com/acquirecloud/golibs/kvs"
 )
 
-// POp is one operation of the program: thread T (-1 = sequential set-up before the threads start)
+// POp is one operation of the program: round R (rounds run one after the other), thread T of that round
+// (-1 = sequential set-up of the round, before its threads are released together); Y: yield before the call.
 type POp struct {
-	T int `json:"t"`
+	T int  `json:"t"`
+	R int  `json:"r,omitempty"`
+	Y bool `json:"y,omitempty"`
 	kvx.Op
 }
 
 type Case struct {
-	ID   uint64   `json:"id"`
-	Be   string   `json:"be"`
-	Kind string   `json:"kind"` // free | creators | casrace
-	Prog []POp    `json:"prog"`
-	Hist []string `json:"hist,omitempty"` // the recorded history (diagnostics only)
-	KF   string   `json:"kf,omitempty"`
+	ID    uint64   `json:"id"`
+	Be    string   `json:"be"`
+	Kind  string   `json:"kind"`            // free | creators | casrace | putmany
+	Procs int      `json:"procs,omitempty"` // GOMAXPROCS while the case runs (0: unchanged)
+	Prog  []POp    `json:"prog"`
+	Hist  []string `json:"hist,omitempty"` // the recorded history (diagnostics only)
+	KF    string   `json:"kf,omitempty"`
 }
 
 // Ev is one completed call
 type Ev struct {
-	T        int
+	T, R     int
 	Inv, Ret int
 	Op       kvx.Op
 	VerID    int // CasByVersion: id of the version passed in
@@ -46,13 +53,14 @@ type Ev struct {
 	Ver      int     // OVer / OExist
 	Rec      *ORec   // ORec
 	Recs     []*ORec // ORecs
+	Wrote    bool    // a successful single write: Ver / Rec.Ver is the version it installed
 }
 
 type ORec struct {
 	Key string
 	Val int // 0 nil/empty, 2 "x", 3 300 bytes, -1 anything else
 	Ver int
-	Exp bool
+	Exp int // 0 none, 1 the expiration instant of this run, 2 anything else
 }
 
 type runner struct {
@@ -60,6 +68,7 @@ type runner struct {
 	mu    sync.Mutex
 	ids   map[string]int
 	stamp int64
+	expAt time.Time // the one expiration instant used by a run: one hour ahead
 }
 
 func (r *runner) id(v string) int {
@@ -86,7 +95,22 @@ func valID(b []byte) int {
 }
 
 func (r *runner) orec(rec kvs.Record) *ORec {
-	return &ORec{Key: rec.Key, Val: valID(rec.Value), Ver: r.id(rec.Version), Exp: rec.ExpiresAt != nil}
+	e := 0
+	if rec.ExpiresAt != nil {
+		e = 2
+		if rec.ExpiresAt.Equal(r.expAt) {
+			e = 1
+		}
+	}
+	return &ORec{Key: rec.Key, Val: valID(rec.Value), Ver: r.id(rec.Version), Exp: e}
+}
+
+func (r *runner) exp(s string) *time.Time {
+	if s == "" {
+		return nil
+	}
+	t := r.expAt
+	return &t
 }
 
 // per-thread memory of the versions it has seen for each key
@@ -123,17 +147,18 @@ func (r *runner) exec(t int, op kvx.Op, sn seen) (ev Ev) {
 	defer func() {
 		if rc := recover(); rc != nil {
 			ev.Class = "OOther"
+			ev.Wrote = false
 			ev.Ret = int(atomic.AddInt64(&r.stamp, 1))
 		}
 	}()
 	switch op.K {
 	case "C":
 		ev.Inv = int(atomic.AddInt64(&r.stamp, 1))
-		v, err := st.Create(ctx, kvs.Record{Key: op.Key, Value: kvx.ValBytes(op.Val)})
+		v, err := st.Create(ctx, kvs.Record{Key: op.Key, Value: kvx.ValBytes(op.Val), ExpiresAt: r.exp(op.Exp)})
 		ev.Ret = int(atomic.AddInt64(&r.stamp, 1))
 		switch c := kvx.Class(err); c {
 		case "OOk":
-			ev.Class, ev.Ver = "OVer", r.id(v)
+			ev.Class, ev.Ver, ev.Wrote = "OVer", r.id(v), true
 			sn.note(op.Key, v)
 		case "OExist":
 			ev.Class, ev.Ver = "OExist", r.id(v)
@@ -169,18 +194,18 @@ func (r *runner) exec(t int, op kvx.Op, sn seen) (ev Ev) {
 		}
 	case "P":
 		ev.Inv = int(atomic.AddInt64(&r.stamp, 1))
-		rec, err := st.Put(ctx, kvs.Record{Key: op.Key, Value: kvx.ValBytes(op.Val), Version: "caller-version"})
+		rec, err := st.Put(ctx, kvs.Record{Key: op.Key, Value: kvx.ValBytes(op.Val), Version: "caller-version", ExpiresAt: r.exp(op.Exp)})
 		ev.Ret = int(atomic.AddInt64(&r.stamp, 1))
 		if c := kvx.Class(err); c != "OOk" {
 			ev.Class = c
 			return
 		}
-		ev.Class, ev.Rec = "ORec", r.orec(rec)
+		ev.Class, ev.Rec, ev.Wrote = "ORec", r.orec(rec), true
 		sn.note(op.Key, rec.Version)
 	case "N":
 		recs := make([]kvs.Record, len(op.Recs))
 		for i, x := range op.Recs {
-			recs[i] = kvs.Record{Key: x.Key, Value: kvx.ValBytes(x.Val)}
+			recs[i] = kvs.Record{Key: x.Key, Value: kvx.ValBytes(x.Val), ExpiresAt: r.exp(x.Exp)}
 		}
 		ev.Inv = int(atomic.AddInt64(&r.stamp, 1))
 		err := st.PutMany(ctx, recs)
@@ -190,13 +215,13 @@ func (r *runner) exec(t int, op kvx.Op, sn seen) (ev Ev) {
 		ver := sn.version(op.Key, op.Ver)
 		ev.VerID = r.id(ver)
 		ev.Inv = int(atomic.AddInt64(&r.stamp, 1))
-		rec, err := st.CasByVersion(ctx, kvs.Record{Key: op.Key, Value: kvx.ValBytes(op.Val), Version: ver})
+		rec, err := st.CasByVersion(ctx, kvs.Record{Key: op.Key, Value: kvx.ValBytes(op.Val), Version: ver, ExpiresAt: r.exp(op.Exp)})
 		ev.Ret = int(atomic.AddInt64(&r.stamp, 1))
 		if c := kvx.Class(err); c != "OOk" {
 			ev.Class = c
 			return
 		}
-		ev.Class, ev.Rec = "ORec", r.orec(rec)
+		ev.Class, ev.Rec, ev.Wrote = "ORec", r.orec(rec), true
 		sn.note(op.Key, rec.Version)
 	case "D":
 		ev.Inv = int(atomic.AddInt64(&r.stamp, 1))
@@ -209,59 +234,119 @@ func (r *runner) exec(t int, op kvx.Op, sn seen) (ev Ev) {
 	return
 }
 
-// run executes the program: set-up operations first, then all threads released together
-func (r *runner) run(prog []POp) []Ev {
+// run executes the program round by round: the set-up operations of a round first, then all its threads
+// released together
+func (r *runner) run(c Case) []Ev {
 	r.b.Reset()
 	r.ids = map[string]int{}
 	r.stamp = 0
+	r.expAt = time.Now().Add(time.Hour).Round(0)
+	if c.Procs > 0 {
+		defer runtime.GOMAXPROCS(runtime.GOMAXPROCS(c.Procs))
+	}
+	rounds := map[int]bool{}
+	for _, p := range c.Prog {
+		rounds[p.R] = true
+	}
+	order := make([]int, 0, len(rounds))
+	for x := range rounds {
+		order = append(order, x)
+	}
+	sort.Ints(order)
 	var hist []Ev
 	shared := seen{} // what the set-up saw is known to every thread
-	nthreads := 0
-	for _, p := range prog {
-		if p.T < 0 {
-			hist = append(hist, r.exec(-1, p.Op, shared))
-		} else if p.T+1 > nthreads {
-			nthreads = p.T + 1
-		}
-	}
-	var wg sync.WaitGroup
-	var gate, ready int32
-	res := make([][]Ev, nthreads)
-	for t := 0; t < nthreads; t++ {
-		var ops []kvx.Op
-		for _, p := range prog {
-			if p.T == t {
-				ops = append(ops, p.Op)
+	for _, rd := range order {
+		nthreads := 0
+		for _, p := range c.Prog {
+			if p.R != rd {
+				continue
+			}
+			if p.T < 0 {
+				e := r.exec(-1, p.Op, shared)
+				e.R = rd
+				hist = append(hist, e)
+			} else if p.T+1 > nthreads {
+				nthreads = p.T + 1
 			}
 		}
-		sn := seen{}
-		for k, l := range shared {
-			sn[k] = append([]string(nil), l...)
+		if nthreads == 0 {
+			continue
 		}
-		wg.Add(1)
-		go func(t int, ops []kvx.Op, sn seen) {
-			defer wg.Done()
-			atomic.AddInt32(&ready, 1)
-			for atomic.LoadInt32(&gate) == 0 { // busy wait: all threads leave the gate within nanoseconds
+		var wg sync.WaitGroup
+		var gate, ready int32
+		res := make([][]Ev, nthreads)
+		for t := 0; t < nthreads; t++ {
+			var ops []POp
+			for _, p := range c.Prog {
+				if p.R == rd && p.T == t {
+					ops = append(ops, p)
+				}
 			}
-			for _, o := range ops {
-				res[t] = append(res[t], r.exec(t, o, sn))
+			sn := seen{}
+			for k, l := range shared {
+				sn[k] = append([]string(nil), l...)
 			}
-		}(t, ops, sn)
-	}
-	for atomic.LoadInt32(&ready) < int32(nthreads) {
-		runtime.Gosched()
-	}
-	atomic.StoreInt32(&gate, 1)
-	wg.Wait()
-	for _, l := range res {
-		hist = append(hist, l...)
+			wg.Add(1)
+			go func(t int, ops []POp, sn seen) {
+				defer wg.Done()
+				atomic.AddInt32(&ready, 1)
+				// spin on the gate, yielding the processor: every thread sees the gate open at its next turn.
+				// (A pure busy wait finds even more races per round but costs 60 times the wall time on a
+				// loaded machine; measured on seeded change C02-m1: 40 of 260 cases caught in 0.5 s vs 190 in 32 s.)
+				for atomic.LoadInt32(&gate) == 0 {
+					runtime.Gosched()
+				}
+				for _, o := range ops {
+					if o.Y {
+						runtime.Gosched()
+					}
+					e := r.exec(t, o.Op, sn)
+					e.R = rd
+					res[t] = append(res[t], e)
+				}
+			}(t, ops, sn)
+		}
+		for atomic.LoadInt32(&ready) < int32(nthreads) {
+			runtime.Gosched()
+		}
+		atomic.StoreInt32(&gate, 1)
+		wg.Wait()
+		for _, l := range res {
+			hist = append(hist, l...)
+		}
 	}
 	sort.SliceStable(hist, func(i, j int) bool { return hist[i].Inv < hist[j].Inv })
 	return hist
 }
 
+// expand: on the Redis client a PutMany that carries an expiration is a loop of Put calls (per-key effects
+// only, as the property says): such a call enters the history as one single-record PutMany per record, all
+// with the stamps of the call.  Everywhere else PutMany is one atomic operation.
+func expand(be string, hist []Ev) []Ev {
+	var res []Ev
+	for _, e := range hist {
+		split := false
+		if be == "redis" && e.Op.K == "N" && e.Class == "OOk" && len(e.Op.Recs) > 1 {
+			for _, x := range e.Op.Recs {
+				split = split || x.Exp != ""
+			}
+		}
+		if !split {
+			res = append(res, e)
+			continue
+		}
+		for _, x := range e.Op.Recs {
+			e2 := e
+			e2.Op.Recs = []kvx.RecIn{x}
+			res = append(res, e2)
+		}
+	}
+	return res
+}
+
 // ---- Gallina ----
+
+const farExp = "(Some 3600000000000%Z)" // one hour, on a clock that stands at 0 (C02 runs take milliseconds)
 
 func coqVal(id int) string {
 	switch id {
@@ -275,10 +360,20 @@ func coqVal(id int) string {
 	return "([0; 0])%N"
 }
 
+func coqExpIn(s string) string {
+	if s == "" {
+		return "None"
+	}
+	return farExp
+}
+
 func coqORec(o *ORec) string {
 	e := "None"
-	if o.Exp {
-		e = "(Some 0%Z)"
+	switch o.Exp {
+	case 1:
+		e = farExp
+	case 2:
+		e = "(Some (-1)%Z)"
 	}
 	return fmt.Sprintf("(%s, %s, %s, %s)", hx.Str(o.Key), coqVal(o.Val), hx.Nat(o.Ver), e)
 }
@@ -287,7 +382,7 @@ func coqOp(e Ev) string {
 	o := e.Op
 	switch o.K {
 	case "C":
-		return fmt.Sprintf("Create %s %s None", hx.Str(o.Key), coqVal(valID(kvx.ValBytes(o.Val))))
+		return fmt.Sprintf("Create %s %s %s", hx.Str(o.Key), coqVal(valID(kvx.ValBytes(o.Val))), coqExpIn(o.Exp))
 	case "G":
 		return "Get " + hx.Str(o.Key)
 	case "M":
@@ -297,15 +392,15 @@ func coqOp(e Ev) string {
 		}
 		return "GetMany " + hx.List(ks)
 	case "P":
-		return fmt.Sprintf("Put %s %s None", hx.Str(o.Key), coqVal(valID(kvx.ValBytes(o.Val))))
+		return fmt.Sprintf("Put %s %s %s", hx.Str(o.Key), coqVal(valID(kvx.ValBytes(o.Val))), coqExpIn(o.Exp))
 	case "N":
 		rs := make([]string, len(o.Recs))
 		for i, x := range o.Recs {
-			rs[i] = fmt.Sprintf("(%s, %s, None)", hx.Str(x.Key), coqVal(valID(kvx.ValBytes(x.Val))))
+			rs[i] = fmt.Sprintf("(%s, %s, %s)", hx.Str(x.Key), coqVal(valID(kvx.ValBytes(x.Val))), coqExpIn(x.Exp))
 		}
 		return "PutMany " + hx.List(rs)
 	case "S":
-		return fmt.Sprintf("CasByVersion %s %s None %s", hx.Str(o.Key), coqVal(valID(kvx.ValBytes(o.Val))), hx.Nat(e.VerID))
+		return fmt.Sprintf("CasByVersion %s %s %s %s", hx.Str(o.Key), coqVal(valID(kvx.ValBytes(o.Val))), coqExpIn(o.Exp), hx.Nat(e.VerID))
 	case "D":
 		return "Delete " + hx.Str(o.Key)
 	}
@@ -347,70 +442,171 @@ func coqCase(id uint64, hist []Ev, wit []int) string {
 func histStrings(hist []Ev) []string {
 	res := make([]string, len(hist))
 	for i, e := range hist {
-		res[i] = fmt.Sprintf("t%d [%d,%d] %s -> %s", e.T, e.Inv, e.Ret, coqOp(e), coqOut(e))
+		res[i] = fmt.Sprintf("r%d t%d [%d,%d] %s -> %s", e.R, e.T, e.Inv, e.Ret, coqOp(e), coqOut(e))
 	}
 	return res
 }
 
-// ---- direct checks of the targeted races ----
+// ---- direct checks ----
+// They look at what was executed, not at the shape the generator intended, so that they stay meaningful
+// while the shrinker deletes operations.
 
 func directChecks(c Case, hist []Ev, s *hx.Sink) {
-	switch c.Kind {
-	case "creators":
-		// threads only Create one key that is absent: exactly one nil, the rest ErrExist with the winner's version
-		wins, winner := 0, 0
-		for _, e := range hist {
-			if e.T >= 0 && e.Op.K == "C" && e.Class == "OVer" {
-				wins++
-				winner = e.Ver
-			}
+	// (1) every successful Create / Put / CasByVersion returns a version string no call returned before as a new one
+	fresh := map[int]int{}
+	for i, e := range hist {
+		if !e.Wrote {
+			continue
 		}
-		if wins != 1 {
-			s.DirectViolation(c.ID, fmt.Sprintf("racing creators of one absent key: %d succeeded", wins), histStrings(hist))
+		v := e.Ver
+		if e.Rec != nil {
+			v = e.Rec.Ver
+		}
+		if j, dup := fresh[v]; dup {
+			s.DirectViolation(c.ID, fmt.Sprintf("two successful writes returned the same version (history positions %d and %d)", j, i), histStrings(hist))
 			return
 		}
-		for _, e := range hist {
-			if e.T >= 0 && e.Op.K == "C" && e.Class != "OVer" && !(e.Class == "OExist" && e.Ver == winner) {
-				s.DirectViolation(c.ID, "racing creators: a loser did not get ErrExist with the winner's version", histStrings(hist))
+		fresh[v] = i
+	}
+	byRound := map[int][]Ev{}
+	for _, e := range hist {
+		byRound[e.R] = append(byRound[e.R], e)
+	}
+	for rd, evs := range byRound {
+		switch c.Kind {
+		case "creators":
+			// the threads of the round only Create one key, which is absent when they start: exactly one nil,
+			// every other one ErrExist with the winner's version
+			key, pure, present := "", true, false
+			for _, e := range evs {
+				if e.T < 0 {
+					// set-up: Put / Create leave the key present, Delete absent
+					switch {
+					case (e.Op.K == "P" || e.Op.K == "C") && e.Wrote:
+						present = true
+					case e.Op.K == "D" && e.Class == "OOk":
+						present = false
+					case e.Op.K == "N" || e.Op.K == "S":
+						pure = false
+					}
+					continue
+				}
+				if e.Op.K != "C" || e.Op.Exp != "" || (key != "" && e.Op.Key != key) {
+					pure = false
+				}
+				key = e.Op.Key
+			}
+			for _, e := range evs {
+				if e.T < 0 && e.Op.Key != key && key != "" {
+					pure = false
+				}
+			}
+			if !pure || present || key == "" {
+				continue
+			}
+			wins, winner, n := 0, 0, 0
+			for _, e := range evs {
+				if e.T >= 0 {
+					n++
+					if e.Class == "OVer" {
+						wins++
+						winner = e.Ver
+					}
+				}
+			}
+			if n > 0 && wins != 1 {
+				s.DirectViolation(c.ID, fmt.Sprintf("round %d: %d racing creators of one absent key, %d succeeded", rd, n, wins), histStrings(evs))
 				return
 			}
-		}
-	case "casrace":
-		// threads only CAS one key against the version the set-up created: exactly one success (at most one
-		// if a Delete runs concurrently), losers ErrConflict or ErrNotExist only
-		wins, deleter := 0, false
-		for _, e := range hist {
-			deleter = deleter || e.Op.K == "D"
-			if e.T >= 0 && e.Op.K == "S" {
-				switch e.Class {
-				case "ORec":
-					wins++
-				case "OConflict", "ONotExist":
-				default:
-					s.DirectViolation(c.ID, "racing CasByVersion: a loser got "+e.Class+" (neither ErrConflict nor ErrNotExist)", histStrings(hist))
+			for _, e := range evs {
+				if e.T >= 0 && e.Class != "OVer" && !(e.Class == "OExist" && e.Ver == winner) {
+					s.DirectViolation(c.ID, fmt.Sprintf("round %d: a losing creator got %s instead of ErrExist with the winner's version", rd, coqOut(e)), histStrings(evs))
 					return
 				}
 			}
-		}
-		if wins > 1 || (wins == 0 && !deleter) {
-			s.DirectViolation(c.ID, fmt.Sprintf("racing CasByVersion on one version: %d succeeded", wins), histStrings(hist))
+		case "casrace":
+			// the set-up created the key; the threads CasByVersion against that very version (plus Gets and at
+			// most a Delete): exactly one success (at most one with a Delete), losers ErrConflict / ErrNotExist only
+			created, pure, deleter := 0, true, false
+			key := ""
+			for _, e := range evs {
+				if e.T < 0 {
+					if e.Op.K == "C" && e.Class == "OVer" && created == 0 {
+						created, key = e.Ver, e.Op.Key
+					} else {
+						pure = false
+					}
+				}
+			}
+			ncas, wins := 0, 0
+			for _, e := range evs {
+				if e.T < 0 {
+					continue
+				}
+				switch e.Op.K {
+				case "S":
+					ncas++
+					if e.Op.Key != key || e.VerID != created {
+						pure = false
+					}
+					switch e.Class {
+					case "ORec":
+						wins++
+					case "OConflict", "ONotExist":
+					default:
+						s.DirectViolation(c.ID, fmt.Sprintf("round %d: a CasByVersion that lost got %s (neither ErrConflict nor ErrNotExist)", rd, e.Class), histStrings(evs))
+						return
+					}
+				case "D":
+					deleter = true
+				case "G":
+				default:
+					pure = false
+				}
+			}
+			if !pure || created == 0 || ncas == 0 {
+				continue
+			}
+			if wins > 1 || (wins == 0 && !deleter) {
+				s.DirectViolation(c.ID, fmt.Sprintf("round %d: %d racing CasByVersion calls on one version, %d succeeded", rd, ncas, wins), histStrings(evs))
+				return
+			}
 		}
 	}
 }
 
 var (
 	inmemB, redisB *kvx.Backend
+	phase          = map[string]time.Duration{}
 )
 
-func runCase(c Case, s *hx.Sink) (string, Case) {
+func runCase(c Case, s *hx.Sink) (string, Case, bool) {
 	b := inmemB
 	if c.Be == "redis" {
 		b = redisB
 	}
 	r := &runner{b: b}
-	hist := r.run(c.Prog)
+	tr := time.Now()
+	hist := r.run(c)
+	phase["run:"+c.Kind+":"+c.Be] += time.Since(tr)
 	for _, e := range hist {
 		s.Count(c.Be + ":" + e.Op.K + ":" + e.Class)
+		if e.Op.K == "N" {
+			mixed, anyExp, allExp := false, false, true
+			for _, x := range e.Op.Recs {
+				anyExp = anyExp || x.Exp != ""
+				allExp = allExp && x.Exp != ""
+			}
+			mixed = anyExp && !allExp
+			switch {
+			case mixed:
+				s.Count(c.Be + ":PutMany:some-records-expire")
+			case anyExp:
+				s.Count(c.Be + ":PutMany:all-records-expire")
+			default:
+				s.Count(c.Be + ":PutMany:no-expiration")
+			}
+		}
 	}
 	overlap := 0
 	for i := range hist {
@@ -422,12 +618,20 @@ func runCase(c Case, s *hx.Sink) (string, Case) {
 	}
 	s.Count(fmt.Sprintf("%s:overlapping-pairs:%s", c.Be, bucket(overlap)))
 	directChecks(c, hist, s)
-	wit := search(hist)
+	c.Hist = histStrings(hist)
+	hist = expand(c.Be, hist)
+	ts := time.Now()
+	wit, exhausted := search(hist)
+	phase["search:"+c.Kind+":"+c.Be] += time.Since(ts)
+	if exhausted {
+		// the untrusted search gave up (never seen; counted, not reported: no verdict on this history)
+		s.Count(c.Be + ":search-budget-exhausted")
+		return "", c, false
+	}
 	if wit == nil {
 		s.Count(c.Be + ":no-linearisation-found")
 	}
-	c.Hist = histStrings(hist)
-	return coqCase(c.ID, hist, wit), c
+	return coqCase(c.ID, hist, wit), c, true
 }
 
 func bucket(n int) string {
@@ -442,24 +646,46 @@ func bucket(n int) string {
 	return "20+"
 }
 
+func randomExp(r *prng.R) string {
+	if r.Chance(1, 6) {
+		return "1h"
+	}
+	return ""
+}
+
+var putManyShapes = [][]kvx.RecIn{
+	{{Key: "a", Val: 2}, {Key: "b", Val: 2}},
+	{{Key: "a", Val: 2}, {Key: "a", Val: 0}},
+	{{Key: "b", Val: 3}},
+	{{Key: "b", Val: 0}, {Key: "a", Val: 3}},
+	{{Key: "a", Val: 2}, {Key: "b", Val: 2, Exp: "1h"}}, // a plain record before an expiring one
+	{{Key: "a", Val: 0, Exp: "1h"}, {Key: "b", Val: 3}}, // an expiring record first
+	{{Key: "b", Val: 2}, {Key: "a", Val: 0, Exp: "1h"}, {Key: "b", Val: 3}},
+	{{Key: "a", Val: 3, Exp: "1h"}},
+}
+
 func randomOp(r *prng.R) kvx.Op {
 	key := prng.Pick(r, []string{"a", "a", "b"})
 	switch x := r.Intn(100); {
-	case x < 15:
-		return kvx.Op{K: "C", Key: key, Val: 2}
-	case x < 33:
+	case x < 14:
+		return kvx.Op{K: "C", Key: key, Val: 2, Exp: randomExp(r)}
+	case x < 32:
 		return kvx.Op{K: "G", Key: key}
 	case x < 41:
 		return kvx.Op{K: "M", Keys: prng.Pick(r, [][]string{{"a", "b"}, {"b", "a", "b"}, {"a"}})}
-	case x < 55:
-		return kvx.Op{K: "P", Key: key, Val: prng.Pick(r, []int{0, 2, 3})}
-	case x < 63:
-		return kvx.Op{K: "N", Recs: prng.Pick(r, [][]kvx.RecIn{{{Key: "a", Val: 2}, {Key: "b", Val: 2}}, {{Key: "a", Val: 2}, {Key: "a", Val: 0}}, {{Key: "b", Val: 3}}})}
+	case x < 54:
+		return kvx.Op{K: "P", Key: key, Val: prng.Pick(r, []int{0, 2, 3}), Exp: randomExp(r)}
+	case x < 65:
+		return kvx.Op{K: "N", Recs: prng.Pick(r, putManyShapes)}
 	case x < 88:
-		return kvx.Op{K: "S", Key: key, Val: prng.Pick(r, []int{0, 2}), Ver: prng.Pick(r, []string{"cur", "cur", "cur", "old", "unk"})}
+		return kvx.Op{K: "S", Key: key, Val: prng.Pick(r, []int{0, 2}), Exp: randomExp(r), Ver: prng.Pick(r, []string{"cur", "cur", "cur", "old", "unk"})}
 	default:
 		return kvx.Op{K: "D", Key: key}
 	}
+}
+
+func pickProcs(r *prng.R) int {
+	return prng.Pick(r, []int{0, 0, 4, 8, 16})
 }
 
 func main() {
@@ -469,8 +695,10 @@ func main() {
 	redisB.Tick = 0
 	defer redisB.Close()
 	add := func(c Case) {
-		term, c2 := runCase(c, s)
-		s.Add(c2, term, len(c.Prog) >= 4)
+		term, c2, ok := runCase(c, s)
+		if ok {
+			s.Add(c2, term, len(c.Prog) >= 4)
+		}
 	}
 	if fl.From != "" {
 		for _, c := range hx.ReadCases[Case](fl.From) {
@@ -487,16 +715,22 @@ func main() {
 		return
 	}
 	id := uint64(0)
-	emit := func(be, kind string, prog []POp) {
+	spent := map[string]time.Duration{}
+	emit := func(be, kind string, procs int, prog []POp) {
 		id++
-		add(Case{ID: id, Be: be, Kind: kind, Prog: prog})
-		s.Count("kind:" + kind)
+		t0 := time.Now()
+		add(Case{ID: id, Be: be, Kind: kind, Procs: procs, Prog: prog})
+		spent[kind+":"+be] += time.Since(t0)
+		s.Count("kind:" + kind + ":" + be)
 	}
-	nfree, nrace := 1200, 150
+
+	type plan struct{ free, crI, crR, casI, casR, pm int }
+	p := plan{free: 1200, crI: 220, crR: 50, casI: 100, casR: 50, pm: 120}
 	if fl.Tier == "thorough" {
-		nfree, nrace = 26000, 2000
+		p = plan{free: 10000, crI: 1500, crR: 300, casI: 800, casR: 300, pm: 800}
 	}
-	for i := 0; i < nfree; i++ {
+	// ---- free-running histories
+	for i := 0; i < p.free; i++ {
 		r := prng.New(fl.Seed, "C02", uint64(i))
 		be := []string{"inmem", "redis"}[i%2]
 		T, K := r.Range(2, 6), r.Range(2, 6)
@@ -509,42 +743,92 @@ func main() {
 		}
 		for t := 0; t < T; t++ {
 			for k := 0; k < K; k++ {
-				prog = append(prog, POp{T: t, Op: randomOp(r)})
+				prog = append(prog, POp{T: t, Y: r.Chance(1, 5), Op: randomOp(r)})
 			}
 		}
-		emit(be, "free", prog)
+		emit(be, "free", pickProcs(r), prog)
 		s.Count(fmt.Sprintf("T:%d", T))
 		s.Count(fmt.Sprintf("K:%d", K))
 	}
-	for i := 0; i < nrace; i++ {
-		r := prng.New(fl.Seed, "C02R", uint64(i))
-		be := []string{"inmem", "redis"}[i%2]
-		N := r.Range(2, 8)
-		var prog []POp
-		if i%4 < 2 {
-			if r.Chance(1, 2) { // the key existed and was deleted: still "absent"
-				prog = append(prog, POp{T: -1, Op: kvx.Op{K: "P", Key: "a", Val: 2}}, POp{T: -1, Op: kvx.Op{K: "D", Key: "a"}})
-			}
-			for t := 0; t < N; t++ {
-				prog = append(prog, POp{T: t, Op: kvx.Op{K: "C", Key: "a", Val: 2}})
-			}
-			emit(be, "creators", prog)
-		} else {
-			prog = append(prog, POp{T: -1, Op: kvx.Op{K: "C", Key: "a", Val: 2}})
-			for t := 0; t < N; t++ {
-				prog = append(prog, POp{T: t, Op: kvx.Op{K: "S", Key: "a", Val: prng.Pick(r, []int{0, 2}), Ver: "cur"}})
-				if r.Chance(1, 3) { // the loser looks at what beat it
-					prog = append(prog, POp{T: t, Op: kvx.Op{K: "G", Key: "a"}})
+	// ---- racing creators: many short rounds, a new key per round
+	creators := func(be string, n, rounds int, salt string) {
+		for i := 0; i < n; i++ {
+			r := prng.New(fl.Seed, salt, uint64(i))
+			var prog []POp
+			for rd := 0; rd < rounds; rd++ {
+				key := fmt.Sprintf("k%d", rd)
+				if r.Chance(1, 4) { // the key existed and was deleted: still "absent"
+					prog = append(prog, POp{T: -1, R: rd, Op: kvx.Op{K: "P", Key: key, Val: 2}}, POp{T: -1, R: rd, Op: kvx.Op{K: "D", Key: key}})
 				}
+				N := r.Range(2, 8)
+				for t := 0; t < N; t++ {
+					prog = append(prog, POp{T: t, R: rd, Op: kvx.Op{K: "C", Key: key, Val: prng.Pick(r, []int{0, 2})}})
+				}
+				s.Count(fmt.Sprintf("creators:N:%d", N))
 			}
-			if r.Chance(1, 4) { // a concurrent Delete: losers may then see ErrNotExist
-				prog = append(prog, POp{T: N, Op: kvx.Op{K: "D", Key: "a"}})
-			}
-			emit(be, "casrace", prog)
+			emit(be, "creators", pickProcs(r), prog)
 		}
 	}
-	s.Close("free: T=2..6 goroutines x K=2..6 operations (Create, Get, GetMany, Put, PutMany, CasByVersion with the current/stale/unknown version as seen by that goroutine, Delete) over keys {a,b}, "+
-		"half on inmem.New(), half on the Redis client over miniredis, all goroutines released together; creators: N=2..8 goroutines Create one absent key; casrace: N=2..8 goroutines CasByVersion against the one version the set-up created "+
-		"(sometimes with a concurrent Delete). Every history is linearised by an untrusted search and the witness is verified in Coq by Lin.valid_lin against spec/KV.v. "+
+	creators("inmem", p.crI, 16, "C02CI")
+	creators("redis", p.crR, 6, "C02CR")
+	// ---- racing CasByVersion against one version
+	casrace := func(be string, n, rounds int, salt string) {
+		for i := 0; i < n; i++ {
+			r := prng.New(fl.Seed, salt, uint64(i))
+			var prog []POp
+			for rd := 0; rd < rounds; rd++ {
+				key := fmt.Sprintf("k%d", rd)
+				prog = append(prog, POp{T: -1, R: rd, Op: kvx.Op{K: "C", Key: key, Val: 2}})
+				N := r.Range(2, 8)
+				for t := 0; t < N; t++ {
+					prog = append(prog, POp{T: t, R: rd, Op: kvx.Op{K: "S", Key: key, Val: prng.Pick(r, []int{0, 2}), Ver: "cur"}})
+					if r.Chance(1, 3) { // the loser looks at what beat it
+						prog = append(prog, POp{T: t, R: rd, Op: kvx.Op{K: "G", Key: key}})
+					}
+				}
+				if r.Chance(1, 4) { // a concurrent Delete: losers may then see ErrNotExist
+					prog = append(prog, POp{T: N, R: rd, Op: kvx.Op{K: "D", Key: key}})
+				}
+				s.Count(fmt.Sprintf("casrace:N:%d", N))
+			}
+			emit(be, "casrace", pickProcs(r), prog)
+		}
+	}
+	casrace("inmem", p.casI, 12, "C02SI")
+	casrace("redis", p.casR, 6, "C02SR")
+	// ---- racing PutMany with overlapping keys, every thread then reads both keys
+	for i := 0; i < p.pm; i++ {
+		r := prng.New(fl.Seed, "C02PM", uint64(i))
+		be := []string{"inmem", "redis"}[i%2]
+		var prog []POp
+		rounds := 3
+		for rd := 0; rd < rounds; rd++ {
+			N := r.Range(2, 5)
+			for t := 0; t < N; t++ {
+				v := prng.Pick(r, []int{0, 2, 3})
+				recs := prng.Pick(r, [][]kvx.RecIn{
+					{{Key: "a", Val: v}, {Key: "b", Val: v}},
+					{{Key: "b", Val: v}, {Key: "a", Val: v}},
+					{{Key: "a", Val: v}, {Key: "b", Val: v, Exp: "1h"}},
+					{{Key: "b", Val: v, Exp: "1h"}, {Key: "a", Val: v}},
+					{{Key: "a", Val: v}},
+				})
+				prog = append(prog, POp{T: t, R: rd, Op: kvx.Op{K: "N", Recs: recs}})
+				prog = append(prog, POp{T: t, R: rd, Y: r.Chance(1, 3), Op: kvx.Op{K: "M", Keys: []string{"a", "b"}}})
+			}
+		}
+		emit(be, "putmany", pickProcs(r), prog)
+	}
+	for k, d := range spent {
+		s.Extra["harness_ms:"+k] = d.Milliseconds()
+	}
+	for k, d := range phase {
+		s.Extra["harness_ms:"+k] = d.Milliseconds()
+	}
+	s.Close("free: T=2..6 goroutines x K=2..6 operations (Create, Get, GetMany, Put, PutMany incl. batches mixing records with and without expiration, CasByVersion with the current/stale/unknown version as seen by that goroutine, Delete; one sixth of the written records expire in one hour) over keys {a,b}, "+
+		"half on inmem.New(), half on the Redis client over miniredis, all goroutines of a round released together, GOMAXPROCS in {default,4,8,16}, random yields; "+
+		"creators: rounds of N=2..8 goroutines Create one absent key (a new key per round); casrace: rounds of N=2..8 goroutines CasByVersion against the one version the set-up created "+
+		"(sometimes with a concurrent Delete); putmany: rounds of N=2..5 goroutines PutMany overlapping keys and read them back. Every history is linearised by an untrusted search and the witness is verified in Coq by Lin.valid_lin against spec/KV.v "+
+		"(a Redis PutMany with an expiring record enters the history as one write per record). "+
 		"distinct = by content hash of program and recorded history; non-trivial = at least 4 operations", false)
 }
